@@ -14,7 +14,7 @@ FLOORS = {
     'quick': dict({'distinct_nontrivial': 6000, 'repr:bytes': 6000, 'repr:window': 8000, 'repr:complete-slice': 3000, 'feature:window-mid-line': 2500,
                    'feature:window-after-newline': 1500, 'feature:window-at-0': 1000, 'feature:neighbour-would-extend-token': 2500,
                    'feature:rejected': 4000, 'feature:accepted': 6000, 'feature:newline-before-token(bytes)': 2500,
-                   'dynamic-partial-slice-refused': 200, 'context-sensitive-class': 100, 'shaped-grammar-texts': 400, 'shaped-corpus': 9},
+                   'dynamic-partial-slice-refused': 200, 'context-sensitive-class': 100, 'shaped-grammar-texts': 400, 'shaped-corpus': 9, 'repr:window-with-negative-indices': 6000},
                   **{'judged:%s/%s' % pl: 1000 for pl in LEXERS}),
     'thorough-unused': dict({'distinct_nontrivial': 100000, 'repr:bytes': 80000, 'repr:window': 100000}, **{'judged:%s/%s' % pl: 15000 for pl in LEXERS}),
 }
@@ -139,6 +139,16 @@ def run_text(ctx, g, gflags, engines, w, rng, ctx_class=False, only_repr=None):
                     ctx.violation('dynamic-lexer-accepts-partial-slice', dict(case0, repr='window', window=[pre, post]), {'outcome': out})
                 continue
             got = norm_exc(out)
+            # the same window spelled with negative indices / None (documented as supported)
+            e_ = a + len(w)
+            alt = TextSlice(buf, (a - len(buf)) if a < len(buf) else a, (e_ - len(buf)) if e_ < len(buf) else None)
+            if (alt.start, alt.end) != (a, e_):
+                ctx.violation('negative-indices-denote-another-window', dict(case0, repr='window', window=[pre, post]), {'window': [a, e_], 'got': [alt.start, alt.end]})
+            else:
+                got_neg = norm_exc(call(ctx, 'parse', l.parse, alt, pos=True, meta=True))
+                ctx.count('repr:window-with-negative-indices')
+                if got_neg != got:
+                    ctx.violation('window-with-negative-indices-differs:%s/%s' % (parser, lexer), dict(case0, repr='window', window=[pre, post]), {'positive': got, 'negative': got_neg})
             dl = pre.count('\n')
             dc = a - (pre.rfind('\n') + 1)
             exp = ['ok', shift_tree(base[1], a, dl, dc)] if base[0] == 'ok' else ['exc', shift_exc(base[1], a, dl, dc)]
